@@ -669,14 +669,30 @@ func Layout(lines []Line, pol *Policy) (string, LineMap) {
 			if k := pol.pick(ln.Indent+3, "comment-indent"); k > 0 {
 				cind = strings.Repeat(unit, k-1)
 			}
-			switch pol.pick(8, "pre-line") {
-		case 6:
-			// comments without any text
-			b.WriteString(cind + "注：" + eol)
-			phys++
-		case 7:
-			b.WriteString(cind + []string{"//", "注7：", "/**/", "注：“”"}[pol.pick(4, "pre-line")] + eol)
-			phys++
+			switch pol.pick(10, "pre-line") {
+			case 8, 9:
+				// a longer run of lines that hold no token (2..17 of them): blank lines, comment
+				// lines, the lines of one block comment
+				k := 2 + pol.pick(16, "pre-line")
+				if pol.pick(3, "pre-line") == 1 && li > 0 {
+					b.WriteString(cind + "/* 注释" + eol)
+					for j := 0; j < k-2; j++ {
+						b.WriteString("   行" + eol)
+					}
+					b.WriteString("*/" + eol)
+				} else {
+					for j := 0; j < k; j++ {
+						b.WriteString([]string{"", cind + "// 行", cind + "注：行", ""}[pol.pick(4, "pre-line")] + eol)
+					}
+				}
+				phys += k
+			case 6:
+				// comments without any text
+				b.WriteString(cind + "注：" + eol)
+				phys++
+			case 7:
+				b.WriteString(cind + []string{"//", "注7：", "/**/", "注：“”"}[pol.pick(4, "pre-line")] + eol)
+				phys++
 			case 1:
 				// a blank line - which may hold white space of any kind and amount
 				b.WriteString([]string{"", "  ", "\t", " \t ", "       ", "\u3000"}[pol.pick(6, "blank-spaces")])
